@@ -5,7 +5,7 @@
    strip-ansi-escapes 0.2.1 over vte 0.14.1: outside escape sequences every C0 control and every
    C1 control is "executed", and the only control strip-ansi-escapes executes is LF; everything
    else is printed. quick-junit 0.5.1 [XmlString::new]: [strip_str], then the characters
-   00-08, 0B, 0C, 0E-1F are removed. ANSI escape parsing itself is not modelled: the functions
+   00-08, 0B, 0C, 0E-1F are removed; nextest's [xml_safe] then removes U+FFFE and U+FFFF. ANSI escape parsing itself is not modelled: the functions
    below are only meaningful on ESC-free text (the documented stripping is then the identity). *)
 From NextestModel Require Import Base.Str.
 Open Scope N_scope.
@@ -17,7 +17,11 @@ Definition strip_impl (s : str) : str := filter (fun c => negb (is_c0_not_lf c |
 Definition strip_doc (s : str) : str := s.
 
 Definition xml_c0 (c : N) : bool := (c <? 9) || (c =? 11) || (c =? 12) || ((14 <=? c) && (c <? 32)).
-Definition junit_impl (s : str) : str := filter (fun c => negb (xml_c0 c)) (strip_impl s).
+(* quick-junit alone: the behaviour before the F14 repair, kept for the regression witness *)
+Definition junit_impl_unfixed (s : str) : str := filter (fun c => negb (xml_c0 c)) (strip_impl s).
+(* [xml_safe] in reporter/aggregator/junit.rs (F14 repair): U+FFFE and U+FFFF are removed as well *)
+Definition is_nonchar (c : N) : bool := (c =? 65534) || (c =? 65535).
+Definition junit_impl (s : str) : str := filter (fun c => negb (is_nonchar c)) (junit_impl_unfixed s).
 
 (* XML 1.0 Char ::= #x9 | #xA | #xD | [#x20-#xD7FF] | [#xE000-#xFFFD] | [#x10000-#x10FFFF];
    scalar values exclude the surrogates already *)
